@@ -188,19 +188,27 @@ impl<RK: StackKind, const P: u8, const G: i8> StackRadio<RK, P, G> {
     /// After a call: chip-model alerts (C14 monitors) become probes of the MAC world; new TX / RX starts of the
     /// chip are compared with what the MAC asked for.
     fn after(&mut self, tx: Option<(&aradio::TxConfig, &[u8])>) {
-        let mut w = self.phy.borrow_mut();
-        let mut e = self.env.borrow_mut();
+        sync_logs(&self.phy, &self.env, &mut self.seen_tx, &mut self.seen_rx, tx);
+    }
+}
+
+/// Chip-model alerts (C14 monitors) become probes of the MAC world; TX / RX starts of the chip not yet looked at
+/// are compared with what the MAC asked for.
+fn sync_logs(phy: &PhyRef, env: &EnvRef, seen_tx: &mut usize, seen_rx: &mut usize, tx: Option<(&aradio::TxConfig, &[u8])>) {
+    {
+        let mut w = phy.borrow_mut();
+        let mut e = env.borrow_mut();
         for a in w.env.alerts.drain(..) {
             e.bump("stack.chip-alert");
             e.push(Ev::Note(format!("chip model alert {} [{}]: {}", a.invariant, a.detail, a.message)));
             e.stack_alerts.push(("chip-alert", format!("{}|{}", a.invariant, a.detail), a.message));
         }
         let (txs, rxs): (Vec<(ChipRf, Vec<u8>)>, Vec<ChipRf>) = match &w.chip {
-            Chip::C126(c) => (c.tx_rf_log[self.seen_tx.min(c.tx_rf_log.len())..].to_vec(), c.rx_rf_log[self.seen_rx.min(c.rx_rf_log.len())..].to_vec()),
-            Chip::C127(c) => (c.tx_rf_log[self.seen_tx.min(c.tx_rf_log.len())..].to_vec(), c.rx_rf_log[self.seen_rx.min(c.rx_rf_log.len())..].to_vec()),
+            Chip::C126(c) => (c.tx_rf_log[(*seen_tx).min(c.tx_rf_log.len())..].to_vec(), c.rx_rf_log[(*seen_rx).min(c.rx_rf_log.len())..].to_vec()),
+            Chip::C127(c) => (c.tx_rf_log[(*seen_tx).min(c.tx_rf_log.len())..].to_vec(), c.rx_rf_log[(*seen_rx).min(c.rx_rf_log.len())..].to_vec()),
         };
-        self.seen_tx += txs.len();
-        self.seen_rx += rxs.len();
+        *seen_tx += txs.len();
+        *seen_rx += rxs.len();
         for (rf, payload) in &txs {
             e.bump("stack.chip-tx-start");
             match tx {
@@ -209,6 +217,8 @@ impl<RK: StackKind, const P: u8, const G: i8> StackRadio<RK, P, G> {
                     if let Some(d) = rf_mismatch(rf, &want) {
                         e.push(Ev::Note(format!("chip TX start differs from the TxConfig: {d}")));
                         e.stack_alerts.push(("tx-config", d.split(' ').next().unwrap_or("").to_string(), format!("the chip started transmitting with {} but the MAC handed down {}: {d}", rf.short(), want.short())));
+                    } else if matches!(rf.power_dbm, Some(p) if cfg.pw >= 2 && p > cfg.pw as i16) {
+                        e.stack_alerts.push(("tx-power", String::new(), format!("the PA settings written to the chip select {} dBm but the MAC handed down {} dBm", rf.power_dbm.unwrap_or(0), cfg.pw)));
                     } else if payload.as_slice() != buf {
                         e.stack_alerts.push(("tx-payload", String::new(), format!("the chip transmitted {} bytes that differ from the {} bytes the MAC handed down", payload.len(), buf.len())));
                     } else {
@@ -379,6 +389,9 @@ impl<RK: StackKind, const P: u8, const G: i8> aradio::PhyRxTx for StackRadio<RK,
             if frame.is_some() && !matches!(res, Ok(aradio::RxStatus::Rx(..))) {
                 e.bump("stack.frame-on-air-not-reported");
             }
+            if matches!(res, Err(StackError::Radio(_))) && !self.fault_fired() && e.cur_rx.is_some() {
+                e.stack_alerts.push(("rx-refused", "rx_single".into(), format!("rx_single(): the real radio refused to receive although no transport fault was injected ({:?})", res.as_ref().err())));
+            }
             e.a_rx_single_end(pos, outcome);
         }
         self.after(None);
@@ -393,9 +406,13 @@ impl<RK: StackKind, const P: u8, const G: i8> aradio::PhyRxTx for StackRadio<RK,
         let cap = buf.len().min(255);
         let mut got: Option<usize> = None;
         let mut pos_seen: Option<u16> = None;
-        let r = drive_inner(&phy, self.inner.rx_continuous(buf), |p| match p {
+        let Self { inner, seen_tx, seen_rx, .. } = self;
+        let r = drive_inner(&phy, inner.rx_continuous(buf), |p| match p {
             Pend::Irq => {
-                // the real receiver is listening: does the ether have something for it now?
+                // the real receiver is listening (this future may be dropped while it waits): look at how the
+                // chip was started now, while the configuration it belongs to is still the current one
+                sync_logs(&phy, &env, seen_tx, seen_rx, None);
+                // does the ether have something for it now?
                 let d = env.borrow_mut().a_rx_continuous_decide(&mut tmp[..cap]);
                 match d {
                     None => PendAction::Yield,
@@ -437,8 +454,13 @@ impl<RK: StackKind, const P: u8, const G: i8> aradio::PhyRxTx for StackRadio<RK,
             if matches!(res, Err(StackError::Stuck)) {
                 e.stack_alerts.push(("hang", "rx_continuous".into(), "rx_continuous(): the real driver waits for an event the chip can never produce in its present mode".into()));
             }
-            let pos = pos_seen.unwrap_or(e.pos);
-            e.a_rx_continuous_end(pos, outcome);
+            if matches!(res, Err(StackError::Radio(_))) && !self.fault_fired() && e.cur_rx.is_some() {
+                e.stack_alerts.push(("rx-refused", "rx_continuous".into(), format!("rx_continuous(): the real radio refused to listen although no transport fault was injected ({:?})", res.as_ref().err())));
+                let pos = e.pos;
+                e.a_rx_continuous_end(pos, outcome);
+            } else if let Some(pos) = pos_seen {
+                e.a_rx_continuous_end(pos, outcome);
+            }
         }
         self.after(None);
         res
